@@ -344,11 +344,11 @@ example : (build { exampleInput with dtypeKind := "f", dtypeName := "float32", d
     (fun o => (o.element, o.bitsAllocated, o.bitsStored)) = some ("FloatPixelData", 32, -1) := by decide
 
 /-- a 1x3 uint16 secondary capture with 12 bits: written as 12 stored in 16 allocated, decoded to itself -/
-example : (scBuild ⟨fun _ _ => .error .other, fun _ _ _ _ _ => .error .other⟩ "1.2.840.10008.1.2.1" "MONOCHROME2" 12
+example : (scBuild ⟨fun _ _ _ _ _ => .error .other, fun _ _ _ _ _ => .error .other⟩ "1.2.840.10008.1.2.1" "MONOCHROME2" 12
     ⟨1, 3, none, .u16, [1, 4095, 256]⟩).toOption.map (fun o => (o.bitsAllocated, o.bitsStored, o.highBit, o.frameBytes)) =
     some (16, 12, 11, [1,0, 255,15, 0,1]) := by decide
 /-- the same array with one value of 4096 is refused -/
-example : (scBuild ⟨fun _ _ => .error .other, fun _ _ _ _ _ => .error .other⟩ "1.2.840.10008.1.2.1" "MONOCHROME2" 12
+example : (scBuild ⟨fun _ _ _ _ _ => .error .other, fun _ _ _ _ _ => .error .other⟩ "1.2.840.10008.1.2.1" "MONOCHROME2" 12
     ⟨1, 3, none, .u16, [1, 4096, 256]⟩).toOption.isNone = true := by decide
 
 end HdVerif.C19
